@@ -97,6 +97,10 @@ def _register_object(new_type, version=version.DEFAULT_VERSION):
     OBJ_MAP = registry.STIX2_OBJ_MAPS[version]['objects']
     if new_type._type in OBJ_MAP.keys():
         raise DuplicateRegistrationError("STIX Object", new_type._type)
+    # (STIX 2.1 objects and observables are looked up by the same type name)
+    if version != "2.0" and \
+            new_type._type in registry.STIX2_OBJ_MAPS[version]['observables']:
+        raise DuplicateRegistrationError("Cyber Observable", new_type._type)
     OBJ_MAP[new_type._type] = new_type
 
 
@@ -142,6 +146,10 @@ def _register_observable(new_observable, version=version.DEFAULT_VERSION):
     OBJ_MAP_OBSERVABLE = registry.STIX2_OBJ_MAPS[version]['observables']
     if new_observable._type in OBJ_MAP_OBSERVABLE.keys():
         raise DuplicateRegistrationError("Cyber Observable", new_observable._type)
+    # (STIX 2.1 objects and observables are looked up by the same type name)
+    if version != "2.0" and \
+            new_observable._type in registry.STIX2_OBJ_MAPS[version]['objects']:
+        raise DuplicateRegistrationError("STIX Object", new_observable._type)
     OBJ_MAP_OBSERVABLE[new_observable._type] = new_observable
 
 
